@@ -176,7 +176,14 @@ func runC02(c *Ctx, r *Report, tier string) {
 		nIdx++
 		r.Check(c.term(in.(*ssa.Call)) == pos, "SPLIT", son, "separator position", c.ipos(in), "strings.Index(option, \"=\"): the first '='", "position computed by "+c.term(in.(*ssa.Call)))
 	}
+	for _, in := range c.instrs(so, c.isCallTo("strings.SplitN", "strings.Split", "strings.Cut")) {
+		nIdx++
+		a := in.(*ssa.Call).Call.Args
+		okS := c.calleeName(&in.(*ssa.Call).Call) != "strings.Split" && c.term(a[0]) == "P1" && c.term(a[1]) == `"="` && (len(a) < 3 || c.term(a[2]) == "2")
+		r.Check(okS, "SPLIT", son, "separator position", c.ipos(in), "SplitN(option, \"=\", 2) / Cut(option, \"=\"): the first '='", "split computed by "+trunc(c.term(in.(*ssa.Call)), 80))
+	}
 	r.Check(nIdx == 1, "SPLIT", son, "one search", c.pos(so.Pos()), "one", fmt.Sprintf("%d", nIdx))
+	widthEq := anyLit(litEq(pos, "call:unicode/utf8.DecodeRuneInString(P1)#1", true), litEq(`len(before(P1, "="))`, "call:unicode/utf8.DecodeRuneInString(P1)#1", true))
 	for _, ret := range returnsOf(so) {
 		t0 := c.term(ret.Results[0])
 		if t0 == "P1" {
@@ -196,9 +203,9 @@ func runC02(c *Ctx, r *Report, tier string) {
 		// guard: (islong ∧ pos ≥ 0) ∨ (¬islong ∧ pos == width of first rune)
 		_, g := c.Requires(so, isInstr(ret), anyLit(
 			litIs(`has(P1, "=")`, true),
-			litEq(pos, "call:unicode/utf8.DecodeRuneInString(P1)#1", true),
+			widthEq,
 		), nil)
-		_, gl := c.Requires(so, isInstr(ret), anyLit(litIs("P2", true), litEq(pos, "call:unicode/utf8.DecodeRuneInString(P1)#1", true)), nil)
+		_, gl := c.Requires(so, isInstr(ret), anyLit(litIs("P2", true), widthEq), nil)
 		_, gs := c.Requires(so, isInstr(ret), anyLit(litIs("P2", false), litIs(`has(P1, "=")`, true)), nil)
 		r.Check(g && gl && gs, "SPLIT", son, "long: pos ≥ 0; short: pos == width of the first character", c.ipos(ret), "REQ((islong ∧ pos ≥ 0) ∨ (¬islong ∧ pos == DecodeRune width))", fmt.Sprintf("pos-guard=%v long-side=%v short-side=%v", g, gl, gs))
 	}
